@@ -311,7 +311,9 @@ def get_runs(ctx, n_quick=24, n_thorough=240):
     rng = random.Random(ctx.seed * 7919 + 17)
     cfgs = make_cfgs(rng, n, months_choices=(12, 12, 24, 13) if ctx.tier == "quick" else (12, 13, 24, 59, 120, 240))
     CACHE.mkdir(exist_ok=True)
-    key = f"designs-{ctx.tier}-{ctx.seed}-{repo_hash()}.json"
+    gen_hash = hashlib.sha256(json.dumps([{k: (v if k != "loads" else hashlib.sha256(repr(v).encode()).hexdigest()) for k, v in c.items()} for c in cfgs],
+                                         sort_keys=True, default=str).encode()).hexdigest()[:10]
+    key = f"designs-{ctx.tier}-{ctx.seed}-{repo_hash()}-{gen_hash}.json"
     path = CACHE / key
     if path.exists():
         try:
